@@ -131,7 +131,9 @@ func c20Solve[E algebra.PrimeGroupElement[E, S], S algebra.PrimeFieldElement[S]]
 		env.Valid("C20.a/SolveRight: M·x=b", symalg.And(eqs...))
 	} else {
 		env.Reach("solve-right-failure")
-		if env.Symbolic() {
+		// (also evaluated in concrete runs: under the solver's model — b in the column span, x' a
+		// solution — the replay reproduces the violation; under generic values it holds)
+		{
 			var eqs []symalg.Pred
 			xp := make([]S, spec.N)
 			for j := range xp {
@@ -170,7 +172,7 @@ func c20Solve[E algebra.PrimeGroupElement[E, S], S algebra.PrimeFieldElement[S]]
 		env.Valid("C20.a/SolveLeft: y·M=r", symalg.And(eqs...))
 	} else {
 		env.Reach("solve-left-failure")
-		if env.Symbolic() {
+		{
 			var eqs []symalg.Pred
 			yp := make([]S, spec.M)
 			for i := range yp {
